@@ -6,6 +6,7 @@ import Driver.Proto
 import SpsdkVerif.Model.Ahab
 import SpsdkVerif.Model.AhabVerify
 import SpsdkVerif.Model.AhabParse
+import SpsdkVerif.Model.AhabCert
 import SpsdkVerif.Spec.AhabRom
 import SpsdkVerif.Crypto.Exec
 open SpsdkVerif Driver
@@ -256,6 +257,19 @@ def step (st : St) : List String → St × String
       let r := verifyImage ⟨st.ver, ch, st.vconts.reverse, st.voverlap⟩
       (st, "ok:" ++ (if r.isEmpty then "-" else "|".intercalate r))
     | none => (st, "bad-op")
+  -- ------------------------------------------------------------ certificate
+  | ["certenc", perms, pd, fuse, uuid, alg, hsh, ks, fl, sid, kd, sig] =>
+    let ct : Cert := ⟨pN perms, pH pd, pN fuse, pH uuid, ⟨pN alg, pN hsh, pN ks, pN fl, pH kd⟩, pN sid, pH sig⟩
+    match encodeCert crypto ct, encodeCertSigned crypto ct with
+    | .ok b, .ok sd => (st, s!"ok:{toHex b} signed={toHex sd}")
+    | .error e, _ => (st, e.tag)
+    | _, .error e => (st, e.tag)
+  | ["certparse", h] =>
+    let hx := fun (b : List UInt8) => if b.isEmpty then "-" else toHex b
+    match parseCert (pH h) with
+    | some p =>
+      (st, s!"ok:{p.length},{p.sigOff},{p.perms},{hx p.permData},{p.fuse},{hx p.uuid},{p.record.signAlg},{p.record.hashAlg},{p.record.keySize},{p.record.srkFlags},{hx p.record.params},{p.srkId},{hx p.keyData},{hx p.signature}")
+    | none => (st, "none")
   | _ => (st, "bad-op")
 
 def main : IO Unit := Driver.loopS ({} : St) step
